@@ -218,4 +218,333 @@ theorem preimage_spec_partial (m : Mgr) (hI : Inv m) (hoff : m.lastLen = none)
   unfold preimage
   simp only [hq, assertValidRename_ok m hV _ hne hov, hpairs, he]
 
+/-! ### the renaming dictionary: keys and values given as names or as levels -/
+
+/-- `bdd.vars.get(k, k)` -/
+def resKey (t : Tbl) : Key → Key
+  | .name s => match t.vars[s]? with
+    | some l => .lvl l
+    | none => .name s
+  | .lvl i => .lvl i
+
+/-- a list of items read as a Python `dict` (a later duplicate of a key overwrites; order of
+first insertion) -/
+def dictOf (l : List (Key × Key)) : List (Key × Key) :=
+  (dedup (l.reverse.map (·.1))).reverse.map fun k => (k, (l.reverse.lookup k).getD k)
+
+theorem resolveRename_eq (t : Tbl) (rn : List (Key × Key)) :
+    resolveRename t rn = dictOf (rn.map fun p => (resKey t p.1, resKey t p.2)) := by
+  have hg : (fun p : Key × Key => (resKey t p.1, resKey t p.2)) = fun x => match x with
+      | (k, v) => (resKey t k, resKey t v) := by
+    funext p; rfl
+  unfold resolveRename dictOf
+  rfl
+
+theorem dedup_of_nodup {α} [BEq α] [LawfulBEq α] : ∀ l : List α, l.Nodup → dedup l = l := by
+  intro l
+  induction l with
+  | nil => intro _; rfl
+  | cons a l ih =>
+    intro h
+    rw [List.nodup_cons] at h
+    simp only [dedup, ih h.2]
+    simp [h.1]
+
+theorem lookup_of_mem_nodup {α β} [BEq α] [LawfulBEq α] :
+    ∀ l : List (α × β), (l.map (·.1)).Nodup → ∀ k v, (k, v) ∈ l → l.lookup k = some v := by
+  intro l
+  induction l with
+  | nil => intro _ k v h; cases h
+  | cons p l ih =>
+    intro hn k v hm
+    obtain ⟨k', v'⟩ := p
+    rw [List.map_cons, List.nodup_cons] at hn
+    rw [List.lookup_cons]
+    rcases List.mem_cons.mp hm with h | h
+    · cases h; simp
+    · have hne : k ≠ k' := by
+        intro he; subst he
+        exact hn.1 (List.mem_map.mpr ⟨(k, v), h, rfl⟩)
+      have : (k == k') = false := by simpa using hne
+      simp only [this]
+      exact ih hn.2 k v h
+
+/-- a dictionary given by items with pairwise distinct keys is the list of these items -/
+theorem dictOf_nodup (l : List (Key × Key)) (h : (l.map (·.1)).Nodup) : dictOf l = l := by
+  unfold dictOf
+  have hr : (l.reverse.map (·.1)).Nodup := by
+    rw [List.map_reverse]
+    exact List.pairwise_reverse.mpr (h.imp fun hab => hab.symm)
+  rw [dedup_of_nodup _ hr, ← List.map_reverse, List.reverse_reverse, List.map_map]
+  have : ∀ p, p ∈ l → ((fun k => (k, (l.reverse.lookup k).getD k)) ∘ (·.1)) p = id p := by
+    intro p hp
+    obtain ⟨k, v⟩ := p
+    have := lookup_of_mem_nodup l.reverse hr k v (List.mem_reverse.mpr hp)
+    simp [this]
+  rw [List.map_congr_left this, List.map_id]
+
+theorem intPairs_map_lvl (l : List (Int × Int)) :
+    intPairs (l.map fun p => (Key.lvl p.1, Key.lvl p.2)) = l := by
+  induction l with
+  | nil => rfl
+  | cons p l ih =>
+    unfold intPairs at ih ⊢
+    rw [List.map_cons, List.filterMap_cons]
+    simp only [ih]
+
+/-- `rename` given by LEVELS with pairwise distinct keys: the level pairs are the items -/
+theorem intPairs_resolveRename_levels (t : Tbl) (l : List (Int × Int))
+    (h : (l.map (·.1)).Nodup) :
+    resolveRename t (l.map fun p => (Key.lvl p.1, Key.lvl p.2)) =
+      l.map (fun p => (Key.lvl p.1, Key.lvl p.2)) ∧
+    intPairs (l.map fun p => (Key.lvl p.1, Key.lvl p.2)) = l := by
+  constructor
+  · rw [resolveRename_eq, List.map_map]
+    have : ((fun p : Key × Key => (resKey t p.1, resKey t p.2)) ∘
+        fun p : Int × Int => (Key.lvl p.1, Key.lvl p.2)) = fun p => (Key.lvl p.1, Key.lvl p.2) := by
+      funext p; rfl
+    rw [this]
+    apply dictOf_nodup
+    rw [List.map_map]
+    have : ((·.1) ∘ fun p : Int × Int => (Key.lvl p.1, Key.lvl p.2)) = Key.lvl ∘ (·.1) := by
+      funext p; rfl
+    rw [this, ← List.map_map]
+    exact List.Pairwise.map _ (fun a b hab he => hab (Key.lvl.inj he)) h
+  · exact intPairs_map_lvl l
+
+/-- `rename` given by declared NAMES with pairwise distinct keys: the level pairs are the pairs
+of the levels of the names -/
+theorem intPairs_resolveRename_names (t : Tbl) (hV : VarsBij t) (l : List (String × String))
+    (h : (l.map (·.1)).Nodup)
+    (hd : ∀ p, p ∈ l → t.vars.contains p.1 = true ∧ t.vars.contains p.2 = true) :
+    resolveRename t (l.map fun p => (Key.name p.1, Key.name p.2)) =
+      l.map (fun p => (Key.lvl (lvlOf t p.1), Key.lvl (lvlOf t p.2))) ∧
+    intPairs (l.map fun p => (Key.lvl (lvlOf t p.1 : Int), Key.lvl (lvlOf t p.2 : Int))) =
+      l.map (fun p => ((lvlOf t p.1 : Int), (lvlOf t p.2 : Int))) := by
+  have hres : ∀ s, t.vars.contains s = true → resKey t (.name s) = .lvl (lvlOf t s) := by
+    intro s hs
+    obtain ⟨i, hi⟩ := (vars_contains_iff t s).mp hs
+    simp [resKey, hi, lvlOf]
+  constructor
+  · rw [resolveRename_eq, List.map_map]
+    have : l.map ((fun p : Key × Key => (resKey t p.1, resKey t p.2)) ∘
+        fun p : String × String => (Key.name p.1, Key.name p.2)) =
+        l.map fun p => (Key.lvl (lvlOf t p.1), Key.lvl (lvlOf t p.2)) := by
+      apply List.map_congr_left
+      intro p hp
+      simp only [Function.comp]
+      rw [hres _ (hd p hp).1, hres _ (hd p hp).2]
+    rw [this]
+    apply dictOf_nodup
+    rw [List.map_map]
+    rw [List.Nodup, List.pairwise_map]
+    rw [List.Nodup, List.pairwise_map] at h
+    refine h.imp_of_mem ?_
+    intro a b ha hb hab he
+    apply hab
+    simp only [Function.comp] at he
+    have he' : lvlOf t a.1 = lvlOf t b.1 := by
+      have := Key.lvl.inj he
+      omega
+    obtain ⟨i, hi⟩ := (vars_contains_iff t _).mp (hd a ha).1
+    obtain ⟨j, hj⟩ := (vars_contains_iff t _).mp (hd b hb).1
+    rw [lvlOf_eq hi, lvlOf_eq hj] at he'
+    subst he'
+    exact hV.inj hi hj
+  · have := intPairs_map_lvl (l.map fun p => ((lvlOf t p.1 : Int), (lvlOf t p.2 : Int)))
+    rw [List.map_map] at this
+    exact this
+
+/-- the two syntactic checks on a dictionary all of whose keys and values are levels -/
+theorem renameOverlap_lvls (l : List (Int × Int)) :
+    renameOverlap (l.map fun p => (Key.lvl p.1, Key.lvl p.2)) = false ↔
+      ∀ p p', p ∈ l → p' ∈ l → p.2 ≠ p'.1 := by
+  unfold renameOverlap
+  rw [← Bool.not_eq_true, List.any_eq_true]
+  constructor
+  · intro h p p' hp hp' he
+    apply h
+    refine ⟨(Key.lvl p.1, Key.lvl p.2), List.mem_map.mpr ⟨p, hp, rfl⟩, ?_⟩
+    simp only [List.any_eq_true, decide_eq_true_eq]
+    exact ⟨(Key.lvl p'.1, Key.lvl p'.2), List.mem_map.mpr ⟨p', hp', rfl⟩, by simp [he]⟩
+  · rintro h ⟨x, hx, hx2⟩
+    obtain ⟨p, hp, rfl⟩ := List.mem_map.mp hx
+    simp only [List.any_eq_true, decide_eq_true_eq] at hx2
+    obtain ⟨y, hy, hy2⟩ := hx2
+    obtain ⟨p', hp', rfl⟩ := List.mem_map.mp hy
+    exact h p p' hp hp' (Key.lvl.inj hy2).symm
+
+theorem renameNonLevel_lvls (l : List (Int × Int)) :
+    renameNonLevel (l.map fun p => (Key.lvl p.1, Key.lvl p.2)) = false := by
+  unfold renameNonLevel
+  rw [← Bool.not_eq_true, List.any_eq_true]
+  rintro ⟨x, hx, hx2⟩
+  obtain ⟨p, _, rfl⟩ := List.mem_map.mp hx
+  simp at hx2
+
+/-- `image` with the renaming and the quantified variables given BY NAME (declared names,
+pairwise distinct keys, no key is a value) -/
+theorem image_spec_names (m : Mgr) (hI : Inv m) (hoff : m.lastLen = none) (hV : VarsBij m.tbl)
+    (trans source : Int) (hu : m.tbl.Mem trans) (hv : m.tbl.Mem source)
+    (l : List (String × String)) (qs : List String) (fa : Bool)
+    (hkeys : (l.map (·.1)).Nodup)
+    (hd : ∀ p, p ∈ l → m.tbl.vars.contains p.1 = true ∧ m.tbl.vars.contains p.2 = true)
+    (hqd : ∀ s, s ∈ qs → m.tbl.vars.contains s = true)
+    (hov : ∀ p p', p ∈ l → p' ∈ l → p.2 ≠ p'.1)
+    (htg : ∀ p, p ∈ l → p.2 ∈ qs ∨ (¬ dependsOn m.tbl trans (lvlOf m.tbl p.2) ∧
+      ¬ dependsOn m.tbl source (lvlOf m.tbl p.2))) :
+    ∃ r m', image trans source (l.map fun p => (Key.name p.1, Key.name p.2))
+        (qs.map Key.name) fa m = (.ok r, m') ∧ Inv m' ∧ Ext m.tbl m'.tbl ∧
+      m'.tbl.Mem r ∧ Frame m m' ∧
+      ∀ a, den m'.tbl r a = true ↔
+        qsem fa (qs.map (lvlOf m.tbl)) (fun b => den m.tbl trans b && den m.tbl source b)
+          (fun z => a (renOf
+            (l.map fun p => ((lvlOf m.tbl p.1 : Int), (lvlOf m.tbl p.2 : Int))) z)) := by
+  obtain ⟨hres, hip⟩ := intPairs_resolveRename_names m.tbl hV l hkeys hd
+  generalize hlp : (l.map fun p => ((lvlOf m.tbl p.1 : Int), (lvlOf m.tbl p.2 : Int))) = lp at hip
+  have hres' : resolveRename m.tbl (l.map fun p => (Key.name p.1, Key.name p.2)) =
+      lp.map fun p => (Key.lvl p.1, Key.lvl p.2) := by
+    rw [hres, ← hlp, List.map_map]; rfl
+  have hip' : intPairs (lp.map fun p => (Key.lvl p.1, Key.lvl p.2)) = lp := intPairs_map_lvl lp
+  have hlvl : ∀ s, m.tbl.vars.contains s = true → lvlOf m.tbl s < m.nvars := by
+    intro s hs
+    obtain ⟨i, hi⟩ := (vars_contains_iff _ _).mp hs
+    rw [lvlOf_eq hi]; exact hV.lt _ _ hi
+  have hinj : ∀ s s', m.tbl.vars.contains s = true → m.tbl.vars.contains s' = true →
+      lvlOf m.tbl s = lvlOf m.tbl s' → s = s' := by
+    intro s s' hs hs' he
+    obtain ⟨i, hi⟩ := (vars_contains_iff _ _).mp hs
+    obtain ⟨j, hj⟩ := (vars_contains_iff _ _).mp hs'
+    rw [lvlOf_eq hi, lvlOf_eq hj] at he
+    subst he
+    exact hV.inj hi hj
+  have hmem : ∀ x, x ∈ lp → ∃ p, p ∈ l ∧ x = ((lvlOf m.tbl p.1 : Int), (lvlOf m.tbl p.2 : Int)) := by
+    intro x hx
+    rw [← hlp] at hx
+    obtain ⟨p, hp, rfl⟩ := List.mem_map.mp hx
+    exact ⟨p, hp, rfl⟩
+  have := image_spec m hI hoff hV trans source hu hv (l.map fun p => (Key.name p.1, Key.name p.2))
+    (qs.map Key.name) fa (qs.map (lvlOf m.tbl)) (mapToLevelE_names m.tbl qs hqd)
+    (by
+      rw [hres', renameOverlap_lvls]
+      intro x x' hx hx' he
+      obtain ⟨p, hp, rfl⟩ := hmem x hx
+      obtain ⟨p', hp', rfl⟩ := hmem x' hx'
+      simp only at he
+      exact hov p p' hp hp' (hinj _ _ (hd p hp).2 (hd p' hp').1 (by omega)))
+    (by rw [hres']; exact renameNonLevel_lvls lp)
+    (by
+      rw [hres', hip']
+      intro x hx
+      obtain ⟨p, hp, rfl⟩ := hmem x hx
+      have h1 := hlvl _ (hd p hp).1
+      have h2 := hlvl _ (hd p hp).2
+      simp only
+      omega)
+    (by
+      rw [hres', hip']
+      intro x hx lv hlv
+      obtain ⟨p, hp, rfl⟩ := hmem x hx
+      simp only at hlv
+      have : lvlOf m.tbl p.2 = lv := by omega
+      subst this
+      rcases htg p hp with h | h
+      · exact Or.inl (List.mem_map.mpr ⟨p.2, h, rfl⟩)
+      · exact Or.inr h)
+  rw [hres', hip'] at this
+  exact this
+
+/-- `preimage` with the renaming and the quantified variables given BY NAME (declared names,
+pairwise distinct keys, no key is a value, partners adjacent, no two keys with the same value),
+the target independent of every value of the renaming -/
+theorem preimage_spec_partial_names (m : Mgr) (hI : Inv m) (hoff : m.lastLen = none)
+    (hV : VarsBij m.tbl) (trans target : Int) (hu : m.tbl.Mem trans) (hv : m.tbl.Mem target)
+    (l : List (String × String)) (qs : List String) (fa : Bool)
+    (hkeys : (l.map (·.1)).Nodup)
+    (hd : ∀ p, p ∈ l → m.tbl.vars.contains p.1 = true ∧ m.tbl.vars.contains p.2 = true)
+    (hqd : ∀ s, s ∈ qs → m.tbl.vars.contains s = true)
+    (hov : ∀ p p', p ∈ l → p' ∈ l → p.2 ≠ p'.1)
+    (hadj : ∀ p, p ∈ l → ((lvlOf m.tbl p.1 : Int) - (lvlOf m.tbl p.2 : Int)).natAbs = 1)
+    (hinj : ∀ p p', p ∈ l → p' ∈ l → p.2 = p'.2 → p.1 = p'.1)
+    (hind : ∀ p, p ∈ l → ¬ dependsOn m.tbl target (lvlOf m.tbl p.2)) :
+    ∃ r m', preimage trans target (l.map fun p => (Key.name p.1, Key.name p.2))
+        (qs.map Key.name) fa m = (.ok r, m') ∧ Inv m' ∧ Ext m.tbl m'.tbl ∧
+      m'.tbl.Mem r ∧ Frame m m' ∧
+      ∀ a, den m'.tbl r a = true ↔
+        qsem fa (qs.map (lvlOf m.tbl)) (fun b => den m.tbl trans b && den m.tbl target
+          (fun j => b (renOf
+            (l.map fun p => ((lvlOf m.tbl p.1 : Int), (lvlOf m.tbl p.2 : Int))) j))) a := by
+  obtain ⟨hres, hip⟩ := intPairs_resolveRename_names m.tbl hV l hkeys hd
+  generalize hlp : (l.map fun p => ((lvlOf m.tbl p.1 : Int), (lvlOf m.tbl p.2 : Int))) = lp at hip
+  have hres' : resolveRename m.tbl (l.map fun p => (Key.name p.1, Key.name p.2)) =
+      lp.map fun p => (Key.lvl p.1, Key.lvl p.2) := by
+    rw [hres, ← hlp, List.map_map]; rfl
+  have hip' : intPairs (lp.map fun p => (Key.lvl p.1, Key.lvl p.2)) = lp := intPairs_map_lvl lp
+  have hlvl : ∀ s, m.tbl.vars.contains s = true → lvlOf m.tbl s < m.nvars := by
+    intro s hs
+    obtain ⟨i, hi⟩ := (vars_contains_iff _ _).mp hs
+    rw [lvlOf_eq hi]; exact hV.lt _ _ hi
+  have hinjv : ∀ s s', m.tbl.vars.contains s = true → m.tbl.vars.contains s' = true →
+      lvlOf m.tbl s = lvlOf m.tbl s' → s = s' := by
+    intro s s' hs hs' he
+    obtain ⟨i, hi⟩ := (vars_contains_iff _ _).mp hs
+    obtain ⟨j, hj⟩ := (vars_contains_iff _ _).mp hs'
+    rw [lvlOf_eq hi, lvlOf_eq hj] at he
+    subst he
+    exact hV.inj hi hj
+  have hmem : ∀ x, x ∈ lp → ∃ p, p ∈ l ∧ x = ((lvlOf m.tbl p.1 : Int), (lvlOf m.tbl p.2 : Int)) := by
+    intro x hx
+    rw [← hlp] at hx
+    obtain ⟨p, hp, rfl⟩ := List.mem_map.mp hx
+    exact ⟨p, hp, rfl⟩
+  have := preimage_spec_partial m hI hoff hV trans target hu hv
+    (l.map fun p => (Key.name p.1, Key.name p.2))
+    (qs.map Key.name) fa (qs.map (lvlOf m.tbl)) (mapToLevelE_names m.tbl qs hqd)
+    (by
+      rw [hres']
+      intro hne
+      cases hl : l with
+      | nil => rw [← hlp, hl] at hne; exact absurd rfl hne
+      | cons p _ =>
+        have := hlvl _ (hd p (by rw [hl]; exact List.mem_cons_self)).1
+        omega)
+    (by
+      rw [hres', renameOverlap_lvls]
+      intro x x' hx hx' he
+      obtain ⟨p, hp, rfl⟩ := hmem x hx
+      obtain ⟨p', hp', rfl⟩ := hmem x' hx'
+      simp only at he
+      exact hov p p' hp hp' (hinjv _ _ (hd p hp).2 (hd p' hp').1 (by omega)))
+    (by
+      rw [hres', hip']
+      intro x hx
+      obtain ⟨p, hp, rfl⟩ := hmem x hx
+      have h1 := hlvl _ (hd p hp).1
+      have h2 := hlvl _ (hd p hp).2
+      simp only
+      omega)
+    (by
+      rw [hres', hip']
+      intro x hx
+      obtain ⟨p, hp, rfl⟩ := hmem x hx
+      exact hadj p hp)
+    (by
+      rw [hres', hip']
+      intro x x' hx hx' he
+      obtain ⟨p, hp, rfl⟩ := hmem x hx
+      obtain ⟨p', hp', rfl⟩ := hmem x' hx'
+      simp only at he
+      have h2 := hinjv _ _ (hd p hp).2 (hd p' hp').2 (by omega)
+      rw [hinj p p' hp hp' h2])
+    (by
+      rw [hres', hip']
+      intro x hx lv hlv
+      obtain ⟨p, hp, rfl⟩ := hmem x hx
+      simp only at hlv
+      have : lvlOf m.tbl p.2 = lv := by omega
+      subst this
+      exact hind p hp)
+  rw [hres', hip'] at this
+  exact this
+
 end DD
